@@ -110,6 +110,8 @@ def _np_pad(it, a, k):
         elif mode == "constant":
             z = lambda w: NdArr(out.shape[:axis] + (w,) + out.shape[axis + 1 :], [0] * (len(out.data) // n * w))
             parts = [z(b), out, z(e)]
+        elif mode == "edge":
+            parts = [getitem(out, idx(0, 1))] * b + [out] + [getitem(out, idx(n - 1, n))] * e
         else:
             raise AnalysisError(f"np.pad mode {mode!r}")
         out = concatenate(parts, axis=axis)
